@@ -23,6 +23,7 @@ CONSTANTS Family,     \* "conc" | "seq"
           NT,         \* number of threads (2 or 3)
           Keys,       \* key styles for scoped calls, subset of {"lent","owned"}
           ConcBodies, \* bodies of thread 1's call: subset of {"acc","none","panic","dbg"}
+          Rounds,     \* every thread performs its call this many times (1 or 2): re-acquisition races
           \* ---- family "seq": thread 1 runs every sequence of 1..SeqMaxLen items, thread 2 is a holder
           SeqColls,   \* collections (indices into SeqCollTab) the main thread calls
           SeqApis, SeqRels, SeqKeys, SeqBodies,
@@ -73,9 +74,9 @@ MkBody(sc, c, api, b, dc) ==
 MkScen(css, pol, b1) ==
   LET colls == [i \in 1..Len(css) |-> MkColl(css[i].kind, "try_new", css[i].slots)]
       sc0   == [arena |-> Arena, colls |-> colls, progs |-> <<>>, policy |-> pol, faults |-> NoFaults]
-  IN [sc0 EXCEPT !.progs = [i \in 1..Len(css) |->
-        <<Call(css[i].api, i, css[i].key, IF ApiScoped(css[i].api) THEN "scope" ELSE "drop",
-               MkBody(sc0, i, css[i].api, IF i = 1 THEN b1 ELSE "acc", i))>>]]
+      call(i) == Call(css[i].api, i, css[i].key, IF ApiScoped(css[i].api) THEN "scope" ELSE "drop",
+                      MkBody(sc0, i, css[i].api, IF i = 1 THEN b1 ELSE "acc", i))
+  IN [sc0 EXCEPT !.progs = [i \in 1..Len(css) |-> [r \in 1..Rounds |-> call(i)]]]
 
 Combos == IF NT = 2 THEN {<<a, b>> : a \in CallSpecsA, b \in CallSpecsB}
           ELSE {<<a, b, c>> : a \in CallSpecsA, b \in CallSpecsB, c \in CallSpecsB}
